@@ -135,3 +135,38 @@ pub fn all_states(with_empty_value: bool) -> Vec<Vec<(Bytes, Bytes)>> {
 pub fn kv_of(r: &RefKv) -> Vec<(Vec<u8>, Vec<u8>)> {
     r.kv.iter().map(|(k, v)| (k.to_vec(), v.to_vec())).collect()
 }
+
+/// The proto log entry a leader would write for `cmd` (what `decode_entries` turns back into it).
+pub fn cmd_to_entry(cmd: &Command, index: u64, term: u64) -> d_engine_proto::common::Entry {
+    use d_engine_proto::client::WriteCommand;
+    use d_engine_proto::client::write_command::CompareAndSwap;
+    use d_engine_proto::client::write_command::Delete;
+    use d_engine_proto::client::write_command::Insert;
+    use d_engine_proto::client::write_command::Operation;
+    use d_engine_proto::common::Entry;
+    use d_engine_proto::common::EntryPayload;
+    use prost::Message;
+    let payload = match cmd {
+        Command::Noop => EntryPayload::noop(),
+        Command::Insert { key, value, ttl_secs } => EntryPayload::command(Bytes::from(
+            WriteCommand {
+                operation: Some(Operation::Insert(Insert { key: key.clone(), value: value.clone(), ttl_secs: ttl_secs.unwrap_or(0) })),
+            }
+            .encode_to_vec(),
+        )),
+        Command::Delete { key } => EntryPayload::command(Bytes::from(
+            WriteCommand { operation: Some(Operation::Delete(Delete { key: key.clone() })) }.encode_to_vec(),
+        )),
+        Command::CompareAndSwap { key, expected, value } => EntryPayload::command(Bytes::from(
+            WriteCommand {
+                operation: Some(Operation::CompareAndSwap(CompareAndSwap {
+                    key: key.clone(),
+                    expected_value: expected.clone(),
+                    new_value: value.clone(),
+                })),
+            }
+            .encode_to_vec(),
+        )),
+    };
+    Entry { index, term, payload: Some(payload) }
+}
